@@ -1,4 +1,4 @@
-//@unit lexer
+//@unit parser
 //@property C04 C01
 use vstd::prelude::*;
 use std::ops::{Add, Div, Mul, Neg, Rem, Sub, BitAnd, BitOr, BitXor};
@@ -23,7 +23,8 @@ verus! {
 //@type Token in core/src/parsing/text_query.rs
 //@type TokenIterator in core/src/parsing/text_query.rs
 //@include stream.rs
-//@part lexer
+//@part exprctor
+//@part parser
 //@autoslots
 } // verus!
 fn main() {}
